@@ -660,8 +660,8 @@ func c06Read(b []byte) (items []c06Item, wf []string, crlfInAttr bool) {
 	return items, wf, crlfInAttr
 }
 
-// c06PI canonical form of PI data: pseudo-attributes `name = "value"` (values normalised like attribute
-// values) when the data has that form, the raw data otherwise (ok=false).
+// c06PI canonical form of PI data: pseudo-attributes `name = "value"` (white space between them and around `=`
+// normalised, the literals byte for byte) when the data has that form, the raw data otherwise (ok=false).
 func c06PI(data string, wf *[]string) (string, bool) {
 	var sb strings.Builder
 	i, n := 0, len(data)
@@ -695,8 +695,9 @@ func c06PI(data string, wf *[]string) (string, bool) {
 		if e < 0 {
 			return data, false
 		}
-		var ig []string
-		sb.WriteString(" " + name + "=" + c06ChStr(c06Decode(data[i+1:i+1+e], true, &ig)))
+		// the data of a processing instruction has no references (XML 1.0 2.6) and since /repo 59fe76b the minifier does not
+		// decode any there: the literal is compared byte for byte, quotes included
+		sb.WriteString(" " + name + "=" + strconv.QuoteToASCII(data[i:i+1+e+1]))
 		i += 1 + e + 1
 		if i < n && !c06IsS(data[i]) {
 			return data, false
@@ -910,6 +911,29 @@ func c06GoStream(b []byte, keep bool) ([]string, error) {
 // signature (failing clauses) recorded for each trigger
 var c06TrigClauses = map[string][]string{
 	"attrCRLF": {"attr"},
+	// behind such a `>` the lexer is in content mode: the rest of the data up to `?>` is text (white space collapsed and
+	// trimmed, references decoded, `]]>` guarded, the white space in front of the PI judged by it) or even markup
+	"piDataGt": {"pi", "chars", "wf"},
+}
+
+// c06PiDataGt: the dependency lexer delivers a StartTagClose / StartTagCloseVoid token between `<?target` and `?>`
+// (a `>` or `/>` in the data of a processing instruction, which it reads like the end of a tag): trigger of K-C06-8
+func c06PiDataGt(ts []c06Tok) bool {
+	inPI := false
+	for _, t := range ts {
+		switch t.tt {
+		case pxml.StartTagPIToken:
+			inPI = true
+		case pxml.StartTagClosePIToken:
+			inPI = false
+		case pxml.StartTagCloseToken, pxml.StartTagCloseVoidToken:
+			if inPI {
+				return true
+			}
+			inPI = false
+		}
+	}
+	return false
 }
 
 type c06Case struct {
@@ -972,6 +996,9 @@ func c06Judge(c *Ctx, st *h.Stage, cases []*c06Case) error {
 		clauses, inWF, crlf := c06Compare(cs.src, cs.out, cs.keep)
 		if crlf {
 			trigs["attrCRLF"] = true
+		}
+		if c06PiDataGt(cs.toks) {
+			trigs["piDataGt"] = true
 		}
 		nontriv := !bytes.Equal(cs.src, cs.out)
 		st.Count(cs.key, nontriv)
@@ -1190,6 +1217,9 @@ func init() {
 			"<r>a <!--1--><!--2--><!--3--><!--4--><!--5--><!--6--><!--7--><!--8--><!--9--><!--10--><![CDATA[b]]> <!--1--><?p a=\"1\" b=\"2\" c=\"3\" d=\"4\" e=\"5\" f=\"6\" g=\"7\" h=\"8\"?> c</r>",
 			"<r><![CDATA[a]]]><![CDATA[]]]>&gt;b</r>", "<r>a]<![CDATA[]]]>&gt;b</r>", "<r>a]<!--c-->]<!--c-->&gt;b</r>", "<r><![CDATA[a]]]]><![CDATA[>b]]></r>",
 			"<r>]<!--c-->]<![CDATA[]]>]<!--c-->><![CDATA[]]]]><![CDATA[>]]></r>", "<r>y<a> <?pi?>z</a></r>",
+			// /repo 59fe76b: no references decoded inside a PI; a `>` / `/>` in PI data keeps a space in front of it (K-C09-Xml-1/5)
+			"<?p x=\"?&gt;\"?><a/>", "<a><?x k=\"?&gt;\"?></a>", "<?p x=\"&quot;&lt;&amp;&#65;\" y='&apos;'?><a/>", "<r><?p >?></r>", "<?p ? >?><a/>", "<?p ? />?><a/>",
+			"<?p a>b?><a/>", "<?p a/>b?><a/>", "<r>x <?p a=\"1\" > y  &#65; ?> z</r>", "<r><?p a >?><b></b></r>", "<r><?p > ]]>?></r>", "<r><b> <?php > ?></b></r>", "<r><?p > <b></b> ?></r>",
 			"<?php echo \"x\"; ?><a/>", "<?php echo  \"a  b\";  ?><a/>", "<?pi a=\"1\"  free text?><a c=\"d\"/>", "<?pi a= ?><a/>", "<a>x <?pi a=\"1\"?>y</a>", "<a><b/> <c/></a>", "<a>&amp;&#35;60;</a>", "<a>&#38;lt;</a>",
 		}
 		var cases []*c06Case
